@@ -182,6 +182,18 @@ CLAIMED = {
        "reservoir, SDS / PAF24 final block.",
   technique="Coq proof (prefix invariant of block writers by induction) + crash-image oracle at every update point",
   design_ref="DESIGN.md section 5 C11"),
+ "C14": dict(
+  text="Theorems (Coq) over FileIO.v, the route switch of psf_fseek / psf_fread / psf_ftell / psf_get_filelen / psf_fclose: for EVERY history of seeks (SET/CUR), "
+       "reads and tells that stay inside the sound file the descriptor route at fileoffset |pre| on pre ++ F ++ post returns exactly what the virtual route "
+       "returns on F, for any leading / trailing junk (induction over the history); the length answered for an embedded file is the sound file's own; "
+       "sf_close closes the descriptor iff close_desc. Tie: K correspondence of the file_io.c primitives called directly on an embedded file and through "
+       "virtual callbacks + route oracle: the same samples written through four routes give byte identical files; the same read / seek / string / info script "
+       "through virtual I/O, path, descriptor (close_desc 0/1), descriptor at an offset inside a junk-wrapped file, and (WAV/AIFF/AU) a pipe gives identical "
+       "results; fcntl(F_GETFD) after sf_close.",
+  note="Trusted: Coq kernel, hand-written FileIO.v (tied by K on every run), sfdrive. Pipe behaviour (kernel buffering, is_pipe paths of the header readers) is covered "
+       "by the oracle only; SD2 (resource fork file) only exists on the path route.",
+  technique="Coq proof (refinement between I/O routes by induction over operation histories) + differential K correspondence + cross-route oracle",
+  design_ref="DESIGN.md section 5 C14"),
 }
 
 
